@@ -51,6 +51,20 @@ def validate_monitor_trace(work, d, trace_path):
     return viols, stats, (int(m.group(1)), int(m.group(2)))
 
 
+def apalache_inductive(work):
+    """Init => IndInv (length 0) and IndInv /\ Next => IndInv' (length 1) for spec/conc/MonitorInd.tla"""
+    d = work.sub("apalache")
+    t0 = time.time()
+    for init, length in (("Init", "0"), ("IndInit", "1")):
+        p = subprocess.run(["apalache-mc", "check", "--init=" + init, "--inv=IndInv", "--length=" + length,
+                            "--out-dir=" + os.path.join(d, "out"), os.path.join(work.specdir, "MonitorInd.tla")],
+                           cwd=d, capture_output=True, text=True, timeout=600, env=dict(os.environ, TMPDIR=d))
+        if "EXITCODE: OK" not in p.stdout:
+            raise HarnessError("Apalache: the monitor invariant is not inductive (init=%s) - the model was changed:\n%s" % (init, p.stdout[-1500:]))
+    return dict(name="MonitorInd.tla: CleanWhenIdle /\\ Scoped is an inductive invariant (Apalache, histories of any length): Init => IndInv, IndInv /\\ Next => IndInv'",
+                generated=2, distinct=2, wall=time.time() - t0, ok=True)
+
+
 def c18_check(prop, tier, seed, replay):
     t0 = time.time()
     work = core.Work(prop)
@@ -65,6 +79,8 @@ def c18_check(prop, tier, seed, replay):
         if not r["ok"]:
             raise HarnessError("Monitor.tla (sequential) does not hold its invariants - the model is wrong or was changed:\n" + r["out"][-3000:])
         models.append(dict(name="Monitor.tla sequential, MaxCalls=%d" % (maxcalls + 1), **{k: r[k] for k in ("generated", "distinct", "wall", "ok")}))
+        # 1b. histories of ANY length: CleanWhenIdle and Scoped as an inductive invariant (Apalache)
+        models.append(apalache_inductive(work))
         # 2. spec -> code: every complete history of the bound, with the delivery the model predicts
         if replay:
             with open(replay) as fh:
